@@ -134,6 +134,8 @@ impl CompactionHandover {
             "Applying batch compaction handover"
         );
 
+        #[cfg(feature = "sim-hooks")]
+        crate::sim_hooks::gate("compact.before_commit", format!("s{}", self.shard_id)).await;
         let drained_labels = {
             let _guard = self.flush_lock.lock().await;
             let mut index = SegmentIndex::load(&self.shard_dir).await?;
@@ -289,6 +291,8 @@ impl CompactionHandover {
             drained_labels
         };
 
+        #[cfg(feature = "sim-hooks")]
+        crate::sim_hooks::gate("compact.index_saved", format!("s{}", self.shard_id)).await;
         // Update segment IDs: remove all drained segments, add all new segments
         let retired_set: HashSet<&str> = drained_labels.iter().map(|s| s.as_str()).collect();
         let mut guard = self.segment_ids.write().unwrap();
@@ -337,6 +341,8 @@ impl CompactionHandover {
         let shard_dir = self.shard_dir.clone();
         let shard_id = self.shard_id;
         tokio::spawn(async move {
+            #[cfg(feature = "sim-hooks")]
+            crate::sim_hooks::gate("compact.before_reclaim", format!("s{}", shard_id)).await;
             match tokio::task::spawn_blocking(move || {
                 Self::move_to_reclaim(shard_id, shard_dir, retired)
             })
